@@ -52,7 +52,9 @@ def gen_dump(rng):
         tids = tids[:-1] + [rng.choice((0xfedcba9876543210, (1 << 64) - 1, 123456789012))]
     undeclared = rng.choice((99, 99, 0xffffffffffffff00))
     programs = []
-    map_pids = [100 * (i + 1) if rng.random() < 0.8 else 4294967295 - i for i in range(len(tids))]
+    map_pids = [100 * (i + 1) if rng.random() < 0.75 else 4294967295 - i for i in range(len(tids))]
+    if rng.random() < 0.25:
+        map_pids[rng.randrange(len(map_pids))] = 0       # the kernel's pid
 
     def stack_sample(tid, pid, with_thread_data):
         nf = rng.randrange(1, 9)
@@ -74,14 +76,14 @@ def gen_dump(rng):
             c = rng.random()
             if c < 0.2:      # a new-thread pair that (re-)maps a thread of this stream
                 target = rng.choice(tids + [undeclared, 555])
-                prog += H.newthread_pair(target, rng.choice((100, 200, 300, 777)), rng.choice(domain.TEXTS[:5])[:16] or b'x',
+                prog += H.newthread_pair(target, rng.choice((100, 200, 300, 777, 0)), rng.choice(domain.TEXTS[:5])[:16] or b'x',
                                          rng.choice((H.NONE, H.ALL)))
             elif c < 0.3:
-                prog += H.exec_pair(rng.choice((100, 200, 777)), rng.choice((b'execd', b'newimage')), rng.choice((H.NONE, H.ALL)))
+                prog += H.exec_pair(rng.choice((100, 200, 777, 0)), rng.choice((b'execd', b'newimage')), rng.choice((H.NONE, H.ALL)))
             elif c < 0.4:
-                prog += [H.A('TRACE_DATA_THREAD_TERMINATE_PID', H.NONE, (rng.choice((100, 200, 888)), 5, 0, 0))]
+                prog += [H.A('TRACE_DATA_THREAD_TERMINATE_PID', H.NONE, (rng.choice((100, 200, 888, 0)), 5, 0, 0))]
             elif c < 0.5:
-                prog += H.sampler(0x1, 3, [H.thd_data(rng.choice((100, 300, 999)), rng.choice(tids + [undeclared]))])
+                prog += H.sampler(0x1, 3, [H.thd_data(rng.choice((100, 300, 999, 0)), rng.choice(tids + [undeclared]))])
             elif c < 0.62 and rng.random() < 0.5:
                 # a stack sample of the emitting thread (callstack lines), with or without its thread-data record
                 prog += stack_sample(tid, keyspace['pid'], rng.random() < 0.5)
@@ -368,9 +370,9 @@ def check_callstack_columns(res, dump):
             return
 
 
-def long_dump(res, ctx, rng, n_workers):
-    """Scale ladder: a long capture in which thousands of short-lived threads are created, work and terminate while a
-    few long-lived declared threads keep emitting; every line of every thread names the process the dump declares."""
+def build_long_dump(rng, n_workers):
+    """A long capture in which thousands of short-lived threads are created, work and terminate while a few long-lived
+    declared threads keep emitting."""
     main = [11, 12, 13]
     entries = [(tid, 100 * (i + 1), b'daemon%d' % i, b'') for i, tid in enumerate(main)]
     items = []
@@ -388,7 +390,13 @@ def long_dump(res, ctx, rng, n_workers):
     for tid in main + [0x5000, 0x5001, 0x5000 + n_workers // 2]:      # the earliest threads emit again at the very end
         items += [(tid, a) for a in H.syscall('BSC_getpid', (0, 0, 0, 0), (0, 100, 0, 0))]
     events = H.materialize(items, t0=0x100000001)
-    dump = {'data': wire.v2_file(entries, 8, gen.events_to_records(events)), 'events': events, 'entries': entries}
+    return {'data': wire.v2_file(entries, 8, gen.events_to_records(events)), 'events': events, 'entries': entries}
+
+
+def long_dump(res, ctx, rng, n_workers):
+    """Scale ladder: every line of every thread of a long capture names the process the dump declares."""
+    dump = build_long_dump(rng, n_workers)
+    events = dump['events']
     case = {'file': dump['data'], 'workers': n_workers}
     _, updating, texts = walk_tables(dump, False)
     try:
